@@ -24,8 +24,16 @@ TABLE = {
     ("k", "list:['a']"): ("id", "sysA"),
     ("k", "s:12"): ("id", "sys-str-12"),
     ("k", "s:['a', 'b']"): ("id", "sys-str-list"),
+    # falsy-but-valid / sentinel-like / non-ASCII values and ids
+    ("k", "s:0"): ("id", ""),                 # the empty string is a system id
+    ("k", "s:None"): ("id", "0"),
+    ("k", "s:\xe9"): ("id", "sys-\xe9"),
+    ("k", "int:0"): ("id", "sysZero"),
+    ("k", "s::system_id:"): ("id", ":system_id:"),
+    ("k", "s:..."): ("id", "None"),
 }
 RAISING = ["s:sys-A", "s:b", "s:T-b-S", "int:7", "list:['b']"]       # get_data raises for these (tagged) ids
+EMPTIES = ["s:sysT", "int:0", "s:0", "s:None"]                         # get_data returns {} for these (tagged) ids
 FS_ROWS = [[k, v, {"none": 0, "id": 1, "raise": 2}[r[0]], fileh.tag(r[1]) if r[0] == "id" else ""]
            for (k, v), r in TABLE.items()]
 
@@ -88,12 +96,13 @@ def base_requests(cfg):
     rp = cfg["rpath"]
     ph = fileh.PH_DEFAULT if cfg["ph"] is None else cfg["ph"]
     values = ["a", "A", "%41", "b", "x", "ab", "", "a/b", "a%2fb", "pre-a-suf", "ba", "aba", ".", "%2541", "%252f",
-              "12", "2", "7", "a-b", "%31%32", "b-"]
+              "12", "2", "7", "a-b", "%31%32", "b-",
+              "0", "00", "None", "%c3%a9", "\xe9", "...", ":system_id:", "%30"]
     extras = ["", "/a", "/b", "/bb/a", "//a", "/", "/a/", "?q", "/a?q", "/%41"]
     outs = []
     if cfg["key"] and ph and ph in rp:
         for vi, v in enumerate(values):
-            if vi >= 15 and not cfg.get("chain"):
+            if 15 <= vi < 21 and not cfg.get("chain"):
                 continue
             for e in (extras if vi < 2 else (extras[:2] if vi < 6 else extras[:1] if cfg["filemode"] else extras[1:2])):
                 outs.append(rp.replace(ph, v, 1) + e)
@@ -192,7 +201,7 @@ class C06(Check):
                         c = emit("".join(t))
                         if c:
                             yield c
-                nrand = 30 if tier == "quick" else 300
+                nrand = 20 if tier == "quick" else 300
                 for _ in range(nrand):
                     toks = list(tokenize(rng.choice(bases)))
                     for _e in range(rng.randrange(2, 5)):
@@ -207,7 +216,7 @@ class C06(Check):
                     c = emit("".join(toks))
                     if c:
                         yield c
-                for _ in range(20 if tier == "quick" else 200):
+                for _ in range(10 if tier == "quick" else 200):
                     n = rng.randrange(1, 14)
                     u = "".join(rng.choice(ALPHABET) if rng.random() < 0.8 else
                                 rng.choice(["%%%02x" % rng.randrange(256), chr(rng.randrange(256)), "%c3%a9", "%e2%82%ac",
@@ -238,7 +247,7 @@ class C06(Check):
         dec = urllib.parse.unquote(uri.partition("?")[0])
         if h is None:
             return [False, [False, [], []], False, [], [], dec]
-        src = RecordingSource(TABLE, RAISING)
+        src = RecordingSource(TABLE, RAISING, EMPTIES)
         h.set_data_source(src)
         ctx = h.prepare_context(uri)
         can = bool(h.can_handle(uri, ctx))
@@ -249,7 +258,7 @@ class C06(Check):
             if hh is not None:
                 # reference reading of "leading slash": decided on the decoded path with the library function
                 nf = uri if urllib.parse.unquote(uri.partition("?")[0]).startswith("/") else "/" + uri
-                src2 = RecordingSource(TABLE, RAISING)
+                src2 = RecordingSource(TABLE, RAISING, EMPTIES)
                 hh.set_data_source(src2)
                 ctx2 = hh.prepare_context(nf)
                 can2 = bool(hh.can_handle(nf, ctx2))
@@ -280,7 +289,8 @@ class C06(Check):
         const = self._sxcache.get(ck)
         if const is None:
             const = (sx(fileh.cfg_sx(cfg)) + " " + sx(cfg["tpre"]) + " " + sx(cfg["tsuf"]),
-                     sx(deep_sxstr(FS_ROWS)) + " " + sx(deep_sxstr(RAISING)) + " " + sx(files))
+                     sx(deep_sxstr(FS_ROWS)) + " " + sx(deep_sxstr(RAISING)) + " " + sx(deep_sxstr(EMPTIES)) + " "
+                     + sx(files))
             self._sxcache[ck] = const
         return ("(" + sx(c["tftp"]) + " " + sx(bool(c.get("old2f"))) + " " + const[0] + " " + sx(deep_sxstr(ttable))
                 + " " + const[1] + " " + sx(c["uri"]) + " " + sx(self.canon(obs)) + ")")
